@@ -701,10 +701,12 @@ _INLINE_CACHE: Dict[tuple, ast.AST] = {}
 
 def inlined(idx: Index, f: FuncInfo) -> ast.AST:
     """cached inline_private_calls(idx, f) (default options)"""
-    key = (id(idx), f.qualname)
-    if key not in _INLINE_CACHE:
-        _INLINE_CACHE[key] = inline_private_calls(idx, f)
-    return _INLINE_CACHE[key]
+    # kept ON the index: a table keyed by id(idx) outlives the index, and the id of a collected index is handed out again --
+    # a worker that analyses one scratch tree after another then reads the inlined copy of a function of the PREVIOUS tree
+    cache = idx.__dict__.setdefault("_inline_cache", {})
+    if f.qualname not in cache:
+        cache[f.qualname] = inline_private_calls(idx, f)
+    return cache[f.qualname]
 
 
 def inline_private_calls(idx: Index, f: FuncInfo, depth: int = 2, keep=()) -> ast.AST:
@@ -1916,6 +1918,27 @@ def identifier_char_rule(ctx, res, rule: str, modules, rest: bool = False, occur
                     f"{short} decides with `{ast.unparse(b)[:80]}` whether a character belongs to an identifier: combining marks and connectors (valid after the "
                     "first character, PEP 3131: दे, שָׁ) are not `isalnum()`, so the word is cut at the mark / a shorter name is found inside a longer one and "
                     "rewritten; ask worder.is_identifier_char", function=g.qualname)
+    # (d) the two ends of the word at an offset (`get_word_at` cuts raw[<start>:<end> + 1]) are found by asking is_identifier_char
+    wf = idx.classes.get("rope.base.worder._RealFinder")
+    gw = wf.methods.get("get_word_at") if wf is not None else None
+    if gw is not None and "rope.base.worder" in modules:
+        ends = []
+        for x in walk_local(gw.node):
+            if isinstance(x, ast.Subscript) and isinstance(x.slice, ast.Slice):
+                for b in (x.slice.lower, x.slice.upper):
+                    for c in ast.walk(b) if b is not None else ():
+                        if isinstance(c, ast.Call) and is_self_attr(c.func) and c.func.attr in wf.methods:
+                            ends.append(wf.methods[c.func.attr])
+        if len(ends) < 2:
+            raise AnalysisError(f"anchor=_RealFinder.get_word_at: the two ends of the word are not found by two methods of the finder ({[e.name for e in ends]})")
+        for e in ends:
+            fam = with_private_helpers(idx, e, depth=3)
+            asks = any(call_name(c) == "is_identifier_char" for h in fam for c in calls_in(h.node))
+            res.add(rule, f"_RealFinder.{e.name}|word-end-found-by-is_identifier_char", asks, e.where,
+                    "the end of the word is found by asking worder.is_identifier_char character by character" if asks else
+                    f"_RealFinder.{e.name} finds the end of the word at an offset without asking worder.is_identifier_char (a regular expression's \\w, isalnum, ...): "
+                    "\\w is letters, digits and `_` -- the combining marks and connectors an identifier may contain (दे, a‿b) are not in it, the word is cut at the mark and "
+                    "get_word_at / get_primary_at / get_name_at answer with a prefix of the name", function=e.qualname)
     res.analysed[f"functions scanned for home-made identifier tests:{rule}"] = n
     if n == 0:
         raise AnalysisError(f"{rule}: no function of {modules} scanned")
@@ -2113,3 +2136,106 @@ def line_model_rule(ctx, res, rule: str, modules) -> None:
     res.add(rule, "modules|no-source-text-cut-with-splitlines", n_bad == 0, mods[0].replace(".", "/") + ".py:1",
             f"{len(mods)} modules cut source text at \"\\n\" only ({allowed} accepted use(s): difflib arguments / docstrings)" if n_bad == 0 else
             f"{n_bad} place(s) cut source text with str.splitlines()", modules=mods)
+
+
+# ---------------------------------------------------------------------------------------------------------------------
+# a table of views derived from another table of the same object
+
+def _self_sub(x):
+    """`self.<attr>[<key>]` -> (attr, key text) | None"""
+    if isinstance(x, ast.Subscript) and is_self_attr(x.value):
+        return x.value.attr, ast.unparse(x.slice)
+    return None
+
+
+def _derived_tables(cls_node: ast.ClassDef):
+    """[(derived attr M, source attr A, statement, method)] for `self.M[k] = F(... self.A[k] ...)` in a method of the class"""
+    out = []
+    for m in cls_node.body:
+        if not isinstance(m, (ast.FunctionDef, ast.AsyncFunctionDef)):
+            continue
+        for st in walk_local(m):
+            if not isinstance(st, ast.Assign):
+                continue
+            for t in st.targets:
+                ms = _self_sub(t)
+                if ms is None:
+                    continue
+                for y in ast.walk(st.value):
+                    a = _self_sub(y)
+                    if a is not None and a[0] != ms[0] and a[1] == ms[1] and isinstance(y.ctx, ast.Load):
+                        out.append((ms[0], a[0], st, m))
+    return out
+
+
+def _invalidates(fn_node, attr: str, key: Optional[str]) -> bool:
+    """does the function drop self.<attr>[key] (or the whole table)?"""
+    for x in walk_local(fn_node):
+        if isinstance(x, ast.Call) and isinstance(x.func, ast.Attribute) and is_self_attr(x.func.value, attr):
+            if x.func.attr == "clear":
+                return True
+            if x.func.attr == "pop" and x.args and (key is None or ast.unparse(x.args[0]) == key):
+                return True
+        if isinstance(x, ast.Delete):
+            for t in x.targets:
+                s_ = _self_sub(t)
+                if s_ is not None and s_[0] == attr and (key is None or s_[1] == key):
+                    return True
+        if isinstance(x, ast.Assign):
+            for t in x.targets:
+                if is_self_attr(t, attr):
+                    return True  # the table is rebuilt
+                s_ = _self_sub(t)
+                if s_ is not None and s_[0] == attr and (key is None or s_[1] == key):
+                    return True
+    return False
+
+
+def derived_table_rule(ctx, res, rule: str, modules) -> None:
+    """A table `self.M` whose entries are computed from the entries of another table of the same object (`self.M[k] = F(self.A[k])`,
+    a memo of views) answers for `self.A` only as long as every change of `self.A[k]` drops `self.M[k]`: in every method of the
+    class that stores into, deletes from or rebuilds `self.A`, the same method drops the entry of `self.M` under the same key
+    (pop / del / store / clear / rebuild).  Otherwise the object hands out a view of the REPLACED entry: what is read and
+    written through it is no longer what is saved."""
+    idx = ctx.idx
+    probe = ast.parse("class C:\n    def __getitem__(self, k):\n        v = self._v[k] = View(self._d[k])\n        return v\n"
+                      "    def put(self, k, x):\n        self._d[k] = x\n    def drop(self, k):\n        del self._d[k]\n        self._v.pop(k, None)\n").body[0]
+    dt = _derived_tables(probe)
+    if [(m, a) for m, a, _, _ in dt] != [("_v", "_d")] or _invalidates(probe.body[1], "_v", "k") or not _invalidates(probe.body[2], "_v", "k"):
+        raise AnalysisError("derived-table detector self-check failed")
+    n_cls = n = 0
+    for c in sorted(idx.classes.values(), key=lambda c: c.qualname):
+        if c.unit.modname not in modules:
+            continue
+        n_cls += 1
+        seen = set()
+        for M, A, st0, m0 in _derived_tables(c.node):
+            if (M, A) in seen:
+                continue
+            seen.add((M, A))
+            for m in c.node.body:
+                if not isinstance(m, (ast.FunctionDef, ast.AsyncFunctionDef)):
+                    continue
+                for x in walk_local(m):
+                    keys = []
+                    if isinstance(x, (ast.Assign, ast.AugAssign, ast.Delete)):
+                        tgts = x.targets if isinstance(x, (ast.Assign, ast.Delete)) else [x.target]
+                        for t in tgts:
+                            s_ = _self_sub(t)
+                            if s_ is not None and s_[0] == A:
+                                keys.append(s_[1])
+                            if is_self_attr(t, A):
+                                keys.append(None)
+                    for k in keys:
+                        n += 1
+                        ok = _invalidates(m, M, k)
+                        res.add(rule, f"{c.name}.{m.name}|{A}-change-drops-{M}#{n}", ok, f"{c.unit.rel}:{x.lineno}",
+                                f"self.{M} is dropped where self.{A} changes" if ok else
+                                f"`{ast.unparse(x)[:60]}` changes self.{A}{'[' + k + ']' if k else ''}, and `{m.name}` does not drop self.{M}{'[' + k + ']' if k else ''}, which holds what "
+                                f"`{m0.name}` computed from the old entry (`{ast.unparse(st0)[:70]}`): the object keeps handing out a view of the replaced entry -- what is recorded "
+                                "through it afterwards is not in the table that is saved", function=f"{c.qualname}.{m.name}")
+    res.analysed[f"{rule}:classes"] = n_cls
+    stale = sum(1 for i in res.instances if i.rule == rule and i.status == "fail")
+    res.add(rule, "classes|derived-tables-follow-their-source", not stale, modules[0].replace(".", "/") + ".py:1",
+            f"{n_cls} classes: {n} change(s) of a table that another table of the object is derived from, " + (f"{stale} leave the derived entry in place" if stale else "all drop the derived entry"),
+            modules=list(modules))
